@@ -374,6 +374,76 @@ def Live (s : Ctx) (f : Field) (i : Nat) : Bool :=
 /-- the part of a started context that playback and `xmp_get_frame_info` can depend on -/
 def playerView (s : Ctx) : Field → Nat → Int := fun f i => if Live s f i then s f i else 0
 
+/-! ## Field sets: what each step (re)writes, and the agreement sets of the proofs
+
+They are part of the model (the driver prints them, the harness checks the real context images
+against them): `B` is what must not change while a module is played. -/
+
+/-- player resources that are NULL / 0 whenever the context is not playing -/
+def IdleField : Field → Bool
+  | .p_xc_data | .s_buffer | .p_virt_virt_channels | .p_virt_virt_used => true
+  | _ => false
+
+def PrologueWrites : Field → Bool
+  | .m_mod_name | .m_mod_type | .m_mod_pat | .m_mod_trk | .m_mod_ins | .m_mod_smp | .m_mod_len | .m_mod_rst | .m_mod_gvl
+  | .m_mod_chn | .m_mod_spd | .m_mod_bpm | .m_mod_xxp | .m_mod_xxt | .m_mod_xxi | .m_mod_xxs
+  | .m_mod_xxc_pan | .m_mod_xxc_vol | .m_mod_xxc_flg | .m_mod_xxo | .m_rrate | .m_c4rate
+  | .m_volbase | .m_gvol | .m_gvolbase | .m_mvol | .m_mvolbase | .m_vol_table | .m_quirk | .m_flow_mode
+  | .m_read_event_type | .m_period_type | .m_compare_vblank | .m_comment | .m_scan_cnt | .m_midi | .m_extra
+  | .m_time_factor => true
+  | _ => false
+
+def EpilogueWrites : Field → Bool
+  | .p_pos | .p_ord | .p_row | .p_frame | .p_speed | .p_bpm | .p_gvol | .p_loop_count | .p_sequence
+  | .p_current_time | .p_frame_time | .s_ticksize | .p_filter | .p_mode | .p_flags => true
+  | _ => false
+
+/-- rewritten completely by every scan -/
+def ScanFull : Field → Bool
+  | .m_scan_cnt | .p_scan | .p_sequence_control | .m_num_sequences | .m_xxo_info_time => true
+  | _ => false
+
+/-- written by the scan only at live indices -/
+def PartialField : Field → Bool
+  | .m_xxo_info_speed | .m_xxo_info_bpm | .m_xxo_info_gvl | .m_xxo_info_st26_speed
+  | .m_seq_data_entry_point | .m_seq_data_duration => true
+  | _ => false
+
+def MixerWrites : Field → Bool
+  | .s_buffer | .s_buf32 | .s_freq | .s_format | .s_amplify | .s_mix | .s_interp | .s_dsp
+  | .s_dtright | .s_dtleft | .s_bidir_adjust | .s_ticksize => true
+  | _ => false
+
+/-- written by `xmp_start_player` after `libxmp_mixer_on` (including `libxmp_reset_flow`) -/
+def StartWrites : Field → Bool
+  | .p_master_vol | .p_smix_vol | .p_pos | .p_row | .p_loop_count | .p_sequence | .p_frame | .p_ord | .m_mod_len
+  | .p_channel_mute | .p_channel_vol
+  | .p_inject_event_note | .p_inject_event_ins | .p_inject_event_vol | .p_inject_event_fxt
+  | .p_inject_event_fxp | .p_inject_event_f2t | .p_inject_event_f2p | .p_inject_event_flag
+  | .p_flow_num_rows | .p_flow_end_point | .p_scan | .p_speed | .p_bpm | .p_gvol | .p_current_time | .p_frame_time
+  | .p_st26_speed | .p_virt_num_tracks | .p_virt_virt_channels | .p_virt_maxvoc | .p_virt_virt_used
+  | .p_virt_voice_array | .p_virt_virt_channel | .p_flow_loop | .p_xc_data
+  | .p_buffer_data_consumed | .p_buffer_data_in_size | .state
+  | .p_flow_jumpline | .p_flow_pbreak | .p_flow_loop_count | .p_flow_loop_active_num | .p_flow_delay
+  | .p_flow_rowdelay | .p_flow_rowdelay_set
+  | .p_flow_jump | .p_flow_loop_dest | .p_flow_loop_param | .p_flow_loop_start | .p_flow_jump_in_pat => true
+  | _ => false
+
+def A0 (f : Field) : Bool := Persistent f || IdleField f || f == .m_xtra
+def A1 (f : Field) : Bool := A0 f || NameField f
+def A2 (f : Field) : Bool := A1 f || PrologueWrites f
+def A4 (f : Field) : Bool := A2 f || EpilogueWrites f
+def A6 (f : Field) : Bool := A4 f || ScanFull f
+/-- agreement after a load -/
+def A7 (f : Field) : Bool := A6 f || f == .state
+def A8 (f : Field) : Bool := A7 f || MixerWrites f
+
+/-- what `xmp_start_player` needs from the state it starts on: the members it neither overwrites
+nor lets `libxmp_mixer_on` overwrite, plus everything it reads -/
+def B (f : Field) : Bool := (A7 f && !(StartWrites f || MixerWrites f)) || StartReads f
+def B8 (f : Field) : Bool := B f || MixerWrites f
+
+
 /-! ## Process-wide writable data: the two lazily filled tables -/
 
 /-- one entry of the Vorbis CRC table: `crc32_init` (src/loaders/vorbis.c) computes
